@@ -1513,7 +1513,10 @@ package ro
 //@ func zipAllInnerSubscriptions$3
 //@   note the teardown of the variadic Zip: the sources are released, the queues emptied - the slices of queues and flags themselves stay, because an update that is delivering a tuple right now (the downstream may end from inside its Next) indexes them afterwards
 //@   props C14 C07 C05 C03
-//@   binds mu values completed subscriptions
+//@   binds subscriptions values completed sources
+//@   calls Lock Unlock Unsubscribe
+//@   params -
+//@   scope completed ctx destination hasEmptyQueue mu muEmit outerCtx sources subscriptions values
 //@   requires len(completed) == len(values)
 //@   maypanic
 //@   track subscriptions.* loop.*
